@@ -823,6 +823,88 @@ func (P *Program) ScanContainment() []ScanSite {
 	return sites
 }
 
+// ScanFuncTypes: a named function type with a `functype` contract block is a
+// behavioural interface.  A dynamic call through a value of that type
+// assumes the block's contract; so every function that is converted to the
+// type must prove it: it has a contract block that `implements` the type
+// (the block then carries the type's postconditions and frame as
+// obligations).  One site per conversion found in the sources.
+func (P *Program) ScanFuncTypes() []ScanSite {
+	var sites []ScanSite
+	fts := map[string]*Block{}
+	for _, b := range P.BlockL {
+		if b.Kind == "functype" && (b.HasMod || len(b.Ensures) > 0) {
+			fts[b.Name] = b
+		}
+	}
+	if len(fts) == 0 {
+		return nil
+	}
+	count := map[string]int{}
+	for _, fn := range P.AllFuncs {
+		for _, b := range fn.Blocks {
+			for _, in := range b.Instrs {
+				var to types.Type
+				var from ssa.Value
+				switch x := in.(type) {
+				case *ssa.ChangeType:
+					to, from = x.Type(), x.X
+				default:
+					continue
+				}
+				n, ok := to.(*types.Named)
+				if !ok || n.Obj().Pkg() == nil {
+					continue
+				}
+				key := shortPkg(n.Obj().Pkg().Path()) + "." + n.Obj().Name()
+				ft, ok := fts[key]
+				if !ok {
+					continue
+				}
+				count[key]++
+				var f *ssa.Function
+				switch v := from.(type) {
+				case *ssa.MakeClosure:
+					f = v.Fn.(*ssa.Function)
+				case *ssa.Function:
+					f = v
+				}
+				s := ScanSite{Props: ft.Props}
+				if f == nil {
+					s.Name = fmt.Sprintf("functype/%s/%s#%d", key, fnLabel(fn), count[key])
+					s.Why = "a value of type " + key + " is built from an unknown function value in " + fnLabel(fn)
+					sites = append(sites, s)
+					continue
+				}
+				label := fnLabel(f)
+				s.Name = "functype/" + key + "/" + label
+				blk := P.Blocks[label]
+				impl := false
+				if blk != nil {
+					for _, t := range blk.Implements {
+						impl = impl || t == key || shortPkg(blk.PkgPath)+"."+t == key
+					}
+				}
+				switch {
+				case blk == nil:
+					s.Why = label + " is used as a " + key + " but has no contract block"
+				case !impl:
+					s.Why = label + " is used as a " + key + " but its contract block does not say `implements " + n.Obj().Name() + "`"
+				case blk.Trusted:
+					s.OK = true
+					s.Why = "implements the function type's contract (trusted block)"
+					s.Assume = label + " is assumed to satisfy the contract of " + key
+				default:
+					s.OK = true
+					s.Why = "its contract block implements the function type's contract (postconditions and frame are obligations of " + label + ")"
+				}
+				sites = append(sites, s)
+			}
+		}
+	}
+	return sites
+}
+
 // ScanObligations turns the scan sites relevant to a property into
 // obligations (discharged syntactically, or failing with goal `false`).
 func (P *Program) ScanObligations(prop string) (*Result, []string) {
@@ -832,6 +914,7 @@ func (P *Program) ScanObligations(prop string) (*Result, []string) {
 	sites = append(sites, P.ScanStdout()...)
 	sites = append(sites, P.ScanContainment()...)
 	sites = append(sites, P.ScanImmutable()...)
+	sites = append(sites, P.ScanFuncTypes()...)
 	r := &Result{Block: &Block{Kind: "scan", Name: "frames"}}
 	var assumes []string
 	for _, s := range sites {
